@@ -153,6 +153,11 @@ def c03(t: tr.Trace, d: dict, h=None, argsh=()):
         have = float(r.obj)
         if not (have == want or (have != have and want != want) or abs(have - want) <= 1e-9 * (1 + abs(want))):
             out.append(("C03:obj-not-sumsq-plus-h|" + ctxt, "soln.obj=%r but sum(resid^2)+h(x)=%r" % (have, want)))
+    for w in getattr(t, "warnings", []):
+        if isinstance(w, tuple) and w and w[0] == "stored-objective-not-at-evaluated-point":
+            out.append(("C03:stored-objective-not-at-evaluated-point|" + context_tags(t, d),
+                        "evaluation point %d: the model stored objective %r but sum(r^2)+h at the point the objective received is %r" % (w[1], w[2], w[3])))
+            break
     return out
 
 
